@@ -482,6 +482,28 @@ impl<'a> GeneratorState<'a> {
         }
     }
 
+    // The operands of a binary operation, left one first. When the left one stands for the Y
+    // of the program (Y itself, or a value indexed by it) and is not used yet, the right one
+    // can't borrow Y as an index register
+    pub(crate) fn generate_operands(
+        &mut self,
+        lhs: &Expr,
+        rhs: &Expr,
+        pos: usize,
+        high_byte: bool,
+        second_time: bool,
+    ) -> Result<(ExprType, ExprType), Error> {
+        let left = self.generate_expr(lhs, pos, high_byte, second_time)?;
+        let borrowed = self.saved_y;
+        let right = self.generate_expr(rhs, pos, high_byte, second_time)?;
+        if self.saved_y && !borrowed && matches!(left, ExprType::Y | ExprType::AbsoluteY(_)) {
+            return Err(self
+                .compiler_state
+                .syntax_error("Code too complex for the compiler", pos));
+        }
+        Ok((left, right))
+    }
+
     pub(crate) fn generate_expr(
         &mut self,
         expr: &Expr,
@@ -494,6 +516,8 @@ impl<'a> GeneratorState<'a> {
             Expr::Integer(i) => Ok(ExprType::Immediate(*i)),
             Expr::BinOp { lhs, op, rhs } => match op {
                 Operation::Assign => {
+                    // A Y borrowed by an enclosing expression is given back by that expression
+                    let outer_saved_y = self.saved_y;
                     let left = self.generate_expr(lhs, pos, high_byte, high_byte)?;
                     if high_byte {
                         if let ExprType::Absolute(_, true, _) = left {
@@ -503,10 +527,17 @@ impl<'a> GeneratorState<'a> {
                             return Ok(left);
                         }
                     }
+                    let borrowed = self.saved_y;
                     let right = self.generate_expr(rhs, pos, high_byte, high_byte)?;
+                    if self.saved_y && !borrowed && matches!(left, ExprType::Y | ExprType::AbsoluteY(_)) {
+                        // The left value stands for the Y of the program, that the right one has borrowed
+                        return Err(self
+                            .compiler_state
+                            .syntax_error("Code too complex for the compiler", pos));
+                    }
                     let ret = self.generate_assign(&left, &right, pos, high_byte);
                     // When the left value is indexed by Y, Y is given back once both bytes are stored
-                    if self.saved_y && !matches!(left, ExprType::AbsoluteY(_)) {
+                    if self.saved_y && !outer_saved_y && !matches!(left, ExprType::AbsoluteY(_)) {
                         self.asm_restore_y();
                         self.saved_y = false;
                         self.tmp_in_use = false;
@@ -537,7 +568,7 @@ impl<'a> GeneratorState<'a> {
                             _ => (),
                         };
                     }
-                    if self.saved_y {
+                    if self.saved_y && !outer_saved_y {
                         self.asm_restore_y();
                         self.saved_y = false;
                         self.tmp_in_use = false;
@@ -600,8 +631,7 @@ impl<'a> GeneratorState<'a> {
                             }
                         }
                     }
-                    let left = self.generate_expr(lhs, pos, high_byte, high_byte)?;
-                    let right = self.generate_expr(rhs, pos, high_byte, high_byte)?;
+                    let (left, right) = self.generate_operands(lhs, rhs, pos, high_byte, high_byte)?;
                     self.generate_arithm(&left, op, &right, pos, high_byte)
                 }
                 Operation::Sub(false) => {
@@ -654,8 +684,7 @@ impl<'a> GeneratorState<'a> {
                             }
                         }
                     }
-                    let left = self.generate_expr(lhs, pos, high_byte, high_byte)?;
-                    let right = self.generate_expr(rhs, pos, high_byte, high_byte)?;
+                    let (left, right) = self.generate_operands(lhs, rhs, pos, high_byte, high_byte)?;
                     self.generate_arithm(&left, op, &right, pos, high_byte)
                 }
                 Operation::And(false)
@@ -663,8 +692,7 @@ impl<'a> GeneratorState<'a> {
                 | Operation::Xor(false)
                 | Operation::Mul(false)
                 | Operation::Div(false) => {
-                    let left = self.generate_expr(lhs, pos, high_byte, high_byte)?;
-                    let right = self.generate_expr(rhs, pos, high_byte, high_byte)?;
+                    let (left, right) = self.generate_operands(lhs, rhs, pos, high_byte, high_byte)?;
                     self.generate_arithm(&left, op, &right, pos, high_byte)
                 }
                 Operation::Add(true)
@@ -674,8 +702,7 @@ impl<'a> GeneratorState<'a> {
                 | Operation::Xor(true)
                 | Operation::Mul(true)
                 | Operation::Div(true) => {
-                    let left = self.generate_expr(lhs, pos, high_byte, high_byte)?;
-                    let right = self.generate_expr(rhs, pos, high_byte, high_byte)?;
+                    let (left, right) = self.generate_operands(lhs, rhs, pos, high_byte, high_byte)?;
                     let newright = self.generate_arithm(&left, op, &right, pos, high_byte)?;
                     let ret = self.generate_assign(&left, &newright, pos, high_byte);
                     if !high_byte {
@@ -686,8 +713,7 @@ impl<'a> GeneratorState<'a> {
                                     || v.var_type == VariableType::ShortPtr
                                     || (v.var_type == VariableType::CharPtr && !eight_bits)
                                 {
-                                    let left = self.generate_expr(lhs, pos, true, true)?;
-                                    let right = self.generate_expr(rhs, pos, true, true)?;
+                                    let (left, right) = self.generate_operands(lhs, rhs, pos, true, true)?;
                                     let newright =
                                         self.generate_arithm(&left, op, &right, pos, true)?;
                                     self.generate_assign(&left, &newright, pos, true)?;
@@ -698,8 +724,7 @@ impl<'a> GeneratorState<'a> {
                                 if v.var_type == VariableType::ShortPtr
                                     || v.var_type == VariableType::CharPtrPtr
                                 {
-                                    let left = self.generate_expr(lhs, pos, true, true)?;
-                                    let right = self.generate_expr(rhs, pos, true, true)?;
+                                    let (left, right) = self.generate_operands(lhs, rhs, pos, true, true)?;
                                     let newright =
                                         self.generate_arithm(&left, op, &right, pos, true)?;
                                     self.generate_assign(&left, &newright, pos, true)?;
@@ -719,8 +744,7 @@ impl<'a> GeneratorState<'a> {
                 | Operation::Land
                 | Operation::Lor => self.generate_expr_cond(expr, pos),
                 Operation::Bls(true) | Operation::Brs(true) => {
-                    let left = self.generate_expr(lhs, pos, false, second_time)?;
-                    let right = self.generate_expr(rhs, pos, false, second_time)?;
+                    let (left, right) = self.generate_operands(lhs, rhs, pos, false, second_time)?;
                     if !high_byte {
                         if let ExprType::Absolute(varname, eight_bits, _) = &left {
                             let v = self.compiler_state.get_variable(varname);
@@ -750,8 +774,7 @@ impl<'a> GeneratorState<'a> {
                     self.generate_assign(&left, &newright, pos, false)
                 }
                 Operation::Bls(false) | Operation::Brs(false) => {
-                    let left = self.generate_expr(lhs, pos, false, second_time)?;
-                    let right = self.generate_expr(rhs, pos, false, second_time)?;
+                    let (left, right) = self.generate_operands(lhs, rhs, pos, false, second_time)?;
                     self.generate_shift(&left, op, &right, pos, high_byte)
                 }
                 Operation::TernaryCond1 => self.generate_ternary(lhs, rhs, pos),
@@ -759,6 +782,12 @@ impl<'a> GeneratorState<'a> {
                     .compiler_state
                     .syntax_error("Unexpected ':'. Probably a ';' typo", pos)),
                 Operation::Comma => {
+                    if self.saved_y {
+                        // The sequence point would give a borrowed Y back too early
+                        return Err(self
+                            .compiler_state
+                            .syntax_error("Code too complex for the compiler", pos));
+                    }
                     self.generate_expr(lhs, pos, false, false)?;
                     self.purge_deferred_plusplus_and_savey()?;
                     self.acc_in_use = false;
@@ -777,6 +806,11 @@ impl<'a> GeneratorState<'a> {
                 "Y" => {
                     if high_byte {
                         Ok(ExprType::Immediate(0))
+                    } else if self.saved_y {
+                        // Y is borrowed as an index register at this point
+                        Err(self
+                            .compiler_state
+                            .syntax_error("Code too complex for the compiler", pos))
                     } else {
                         Ok(ExprType::Y)
                     }
